@@ -523,7 +523,25 @@ let run_qload (hex : string) : string =
     (match qload prog with
      | None -> "GIVEUP"
      | Some (v, st) ->
-       (match unfold (nat_of_int 2000) st.q_heap v with
+       (* the object graph as a tree, with a node budget: shared / cyclic graphs may unfold
+          exponentially (printing only; the theorems do not involve this) *)
+       let budget = ref 20000 in
+       let exception Deep in
+       let rec unf (d : int) (v : qv) : pv =
+         decr budget; if !budget < 0 || d > 400 then raise Deep;
+         match v with
+         | QNone -> PNone | QBool b -> PBool b | QInt z -> PInt z | QFloat f -> PFloat f
+         | QUni s -> PUni s | QStr s -> PStr s | QBytes s -> PBytes s | QBArr s -> PBArr s
+         | QTuple l -> PTuple (List.map (unf (d + 1)) l)
+         | QRef id ->
+           (match qheap_get st.q_heap id with
+            | Some (OList0 l) -> PList (List.map (unf (d + 1)) l)
+            | Some (ODict0 tr) -> PDict (List.map (fun (k, x) -> (unf (d + 1) k, unf (d + 1) x)) tr)
+            | None -> raise Deep)
+         | QGlobal (m, n) -> PGlobal (m, n)
+         | QCall (g, a) -> PCall (unf (d + 1) g, List.map (unf (d + 1)) a)
+         | QPers p -> PPers (unf (d + 1) p) in
+       (match (try Some (unf 0 v) with Deep -> None) with
         | None -> "DEEP"
         | Some t -> "ok " ^ show_pv t))
 
